@@ -3,3 +3,4 @@ CONSTANTS
   PEERS = {"p1"}
   CIDS = {"c1"}
   MaxOps = 0
+  MaxOut = 0
